@@ -119,6 +119,15 @@ var c13Extra = []Prog{
 	{"len([1: 1, 1: 2, 2: 3]) + get([1: 1, 1: 2], 1, 0)", "none", false, false},
 	{"[m == m, mi == mi, mo == mo, [m, m] == [m, m]]", "map", false, false},
 	{"[isset(mo, \"u\"), isset(mo, \"zz\"), get(mo, \"v\", o).id]", "struct", false, false},
+	// equality of two DIFFERENT values of the environment that have the same shape
+	// (lists of equal length and unequal contents: mo.u.tags / mo.v.tags, and o.tags / ls in map2 / struct2)
+	{"mo[\"u\"].tags == mo[\"v\"].tags", "map", false, false},
+	{"mo[\"u\"].tags != mo[\"v\"].tags", "struct", false, false},
+	{"[mo[\"u\"].tags == mo[\"v\"].tags, mo[\"v\"].tags == mo[\"u\"].tags, mo[\"u\"].tags != mo[\"v\"].tags]", "map", false, false},
+	{"if(mo[\"u\"].tags == mo[\"v\"].tags, \"same\", \"differ\")", "map", false, false},
+	{"o.tags == ls", "struct2", false, false},
+	{"[o.tags == ls, o.tags != ls, ls == o.tags]", "map2", false, false},
+	{"ll[0] == ll[1] || lo[0].tags == lo[1].tags", "struct", false, false},
 	// EMPTY containers of the environment (map2 / struct2: mi is an empty map, ll[1] and
 	// lo[1].tags are empty lists), rendered once, twice, nested
 	{"string(mi)", "struct2", false, false},
@@ -763,6 +772,16 @@ func runHist13(h *Hist13, x *evalCtx) hist13Result {
 					})
 				}
 				a, b := one(op.Prog.Src), one(op.Prog2.Src)
+				if a.Class == "ok" && composeViol == nil {
+					// repeat law: the same sub-expression twice in one evaluation is the same value twice
+					res.Composed++
+					rp := one("[(" + op.Prog.Src + "), (" + op.Prog.Src + ")]")
+					if want := "[" + a.Value + "," + a.Value + "]"; rp.Class != "ok" || rp.Value != want {
+						composeViol = &Violation{"law", "c13:repeat-law:" + rp.Class,
+							fmt.Sprintf("op %d (engine=%+v, env=%s): [P, P] is not the value of P twice\n P = %s\n P alone: %s\n [P, P]  : class=%s %s",
+								i, spec, op.Prog.Env, op.Prog.Src, clip(a.Value), rp.Class, clip(rp.Value))}
+					}
+				}
 				if a.Class == "ok" && b.Class == "ok" {
 					res.Composed++
 					c := one("{a: (" + op.Prog.Src + "), b: (" + op.Prog2.Src + ")}")
